@@ -1,17 +1,26 @@
 # C19 — printf/fmt formatting matches the C standard and the documented spec grammar
 #
-# Decomposition (forced by measurement, see DESIGN.md section 4 "C19" and the notes at the end of this file):
-#   parse.*   (A) printf_format alone, recording agent: every directive of the grammar (all pieces solver-chosen) -> the options,
-#                 conversion, length modifier and argument handed to the agent; literal text in order
+# Decomposition (forced by measurement, see DESIGN.md section 4 "C19" and the notes below):
 #   opts.*    (B) do_printf_ints / do_printf_chars alone: flags, width, precision solver-chosen; conversion x length modifier x
 #                 value class fixed per query (so that symbolic execution follows ONE conversion path)
-#   e2e.*     (C) the whole pipeline printf_format + do_printf_* on formats whose SHAPE is pinned per query (a covering family,
-#                 incl. positional n$ and several directives); * arguments and values solver-chosen
-#   poparg.*      pop_arg histories: sequential and positional (cache) fetches of all argument types
+#   e2e.*     (C) the whole pipeline printf_format + do_printf_* on formats whose SHAPE is pinned per query (a covering family over
+#                 conversion x length modifier x flag sets x width/precision forms incl. * arguments, positional n$ and several
+#                 directives, literal text around); argument values solver-chosen
+#   poparg.*      pop_arg histories: sequential and positional (cache) fetches of all argument types, positions solver-chosen
 #   digits.*      print_digits / print_int alone: radix 16/8/2 at full 64-bit width, radix 10 for all values < 10^D
-#   fmt.*         fmt(): templates of literal text + {}-specs with solver-chosen digits / stray bytes against the documented grammar
-#   log.*         stack_buffer_logger<sink,8>: messages of every length 0..3*Limit in solver-chosen pieces through all append paths
+#   fmt.*         fmt(): concrete format strings (literal text + {}-specs, malformed / out-of-range / unclosed ones) with solver-chosen
+#                 argument tuples against an independent interpreter of the documented grammar
+#   log.*         stack_buffer_logger<sink,8>: messages of every length 0..3*Limit, split in three pieces, bytes and append path solver-chosen
 # The oracle (harness/c19_printf.c: ref_directive) is cross-checked against glibc snprintf natively on EVERY run (prepare()).
+#
+# Measured facts behind this shape (CBMC 6.11, cadical):
+#  * a directive whose pieces are ALL solver-chosen makes the parse position symbolic: symbolic execution then enters every conversion x
+#    length-modifier instantiation of print_digits and does not finish (600 s, also with --paths); ir2c's pointer-phi encoding (sel_/pin_)
+#    additionally turns one symbolic branch in front of a merged `s` into a read through an unassigned pointer.  Hence: the SHAPE of every
+#    format is concrete per query (incl. the literal bytes and the values of * arguments), the breadth comes from many cheap queries.
+#  * output arrays written at solver-chosen indices (sink buffer + reference buffer + comparison) cost 5-20x more than comparing each byte
+#    on the spot with a closed-form "expected byte at position i" (c19_ref.h).
+#  * the radix-10 digit loop gets its own unwinding bound (prepare() finds the loop that divides), otherwise 2 x 64-bit dividers x width bound.
 import os, sys, re, subprocess
 sys.path.insert(0, os.path.join(os.path.dirname(__file__), '..', 'engine'))
 from run import Q, Unit, VERIF, ENGINE
@@ -90,6 +99,7 @@ def e2e_family(tier):
                         fl = 0; w = (0, 0); p = (0, 0)
                     else: continue
                 if CONVS[conv] not in 'diuoxXbB': vc = 0
+                if tier == 'quick' and CONVS[conv] in 'bB' and vc == 0: vc = 3       # 64 binary digits of a solver-chosen value with width 70: 120 s; thorough only
                 d = {'conv': conv, 'lm': lm, 'flags': fl, 'wmode': w[0], 'width': w[1] if w[0] else NOPIN, 'pmode': p[0], 'prec': p[1] if p[0] in (1, 2) else NOPIN, 'pos': 0, 'vclass': vc}
                 key = (fmt_of(d), vc)
                 if key in seen: continue
@@ -159,7 +169,7 @@ def queries(tier):
     # ---------------------------------------------------------------- (B) conversion back ends
     int_convs = [0, 2, 3, 4, 5, 10] if quick else [0, 1, 2, 3, 4, 5, 10, 11]
     for conv in int_convs:
-        lms = ([0] if conv == 5 else [0, 1, 2, 3]) if quick else list(range(8))
+        lms = ([0] if conv == 5 else [0, 3] if conv == 10 else [0, 1, 2, 3]) if quick else list(range(8))
         for lm in lms:
             vcs = ([0] + ([3, 4, 5] if conv in (0, 2, 3, 4) and lm in (0, 3) else [])) if quick else list(range(9))
             for vc in vcs:
@@ -202,7 +212,7 @@ def queries(tier):
     # ---------------------------------------------------------------- digit kernel
     VIAS = ['print_digits', 'print_int<int64>', 'print_int<int32>']
     for r, dg in ((16, 16), (8, 22), (2, 64)):
-        for via in range(3):
+        for via in ([0, 2] if quick and r == 2 else range(3)):
             qs.append(PQ('digits.r%d.via%d' % (r, via), 'harness_digits', {'RADIX': r, 'VIA': via}, 6 if quick else 12, dg if via < 2 else (dg + 1) // 2,
                          bounds={'radix': r, 'entry': VIAS[via], 'value': 'any 64-bit magnitude, either sign (print_int: incl. the most negative value)', 'width/precision': '0..%d' % (6 if quick else 12)},
                          what='%s radix %d at full width' % (VIAS[via], r)))
@@ -275,22 +285,25 @@ def validation_queries(tier):
             V('digits10.validate', 'harness_digits', d={'RADIX': 10}), V('digits16.validate', 'harness_digits', d={'RADIX': 16}),
             V('fmt.validate', 'harness_fmt', 'c19_fmt', {'TEMPLATE': '"a{D:0Dx}b{}c{:?}{D}"', 'DEC': 1}), V('fmt2.validate', 'harness_fmt', 'c19_fmt', {'TEMPLATE': '"{:c}{:1Db}{{{D:X}"'}),
             V('log.validate', 'harness_log', 'c19_log', {'LEN': 17})]
-VALIDATE_VECTORS = 40
+VALIDATE_VECTORS = 60
 LEVEL = 'model_checking'
 TECHNIQUE = ('bounded model checking (CBMC, SAT) of the clang-lowered real code against an independent ISO C interpreter written in the harness (cross-checked against glibc snprintf natively on every run); '
              'the sink compares every byte on the spot with the byte the interpreter expects at that position')
 FUNCTION_PATTERNS = [r'frg::', r'^c19_']
 ASSUMPTIONS = [
-    'decomposition at the agent interface: parse.* prove that printf_format hands the agent exactly the written directive (and fetches * arguments in order); opts.* prove that do_printf_ints/do_printf_chars '
-    'render every such option set per ISO C; e2e.* re-check the composition on a covering family of concrete format shapes.  The agent is the one of the repository\'s own test (dispatch on the conversion character)',
+    'decomposition at the agent interface: opts.* prove that do_printf_ints/do_printf_chars render EVERY option set a parser can hand over (any flag subset, width, precision) per ISO C, per conversion x length modifier; '
+    'e2e.* check parser + back end together on a covering family of concrete format shapes (every conversion x length modifier, each with several flag sets, literal / * / absent width and precision, negative * arguments, n$). '
+    'printf_format is NOT proved for every directive string (a fully solver-chosen directive does not finish); the agent is the one of the repository\'s own test (dispatch on the conversion character)',
     'argument passing: System V x86-64 va_list with the register save area exhausted (every variadic argument in one 8-byte overflow slot, upper half of int-class arguments arbitrary)',
-    'radix-10 conversions: argument values below 10^3 in magnitude (solver-chosen) plus the concrete boundary values 0, +-1, min, max (and neighbours) of every length modifier; radix 16/8/2: every 64-bit value',
-    'combinations ISO C leaves undefined are not demanded: # with d i u c s p, 0 with c s p, a precision with c p, length modifiers with c s p, flags other than - with c s; %p and %% in their bare forms (frigg documents 0x<hex>); the \' flag in the "C" locale (no grouping)',
+    'radix-10 conversions: argument values below 10^3 in magnitude (solver-chosen) plus the concrete boundary values 0, 1, -1/max, min, max (and words differing only in discarded bits) of every length modifier; radix 16/8/2: every 64-bit value',
+    'combinations ISO C leaves undefined are not demanded: # with d i u c s p, 0 with c s p, a precision with c p, length modifiers with c s p, flags other than - with c s; %p and %% in their bare forms (frigg documents 0x<hex>); the \' flag in the "C" locale (no grouping); %b/%B as in C23',
     'numbered arguments (n$): every argument 1..max is referenced (POSIX), width/precision literal (frigg has no *m$), and no argument is read with a wider type than the one it was first fetched with (known finding printf-positional-widening)',
-    'fmt(): a spec without a position takes the argument whose index is the number of specs closed before it; a width or zero fill together with the c conversion is undocumented and not demanded',
+    'fmt(): a spec without a position takes the argument whose index is the number of specs closed before it; a width or zero fill together with the c conversion is undocumented and not demanded; negative integers render as sign + magnitude in every radix',
+    'logger: text is complete at the sink once endlog is appended; without endlog exactly the full chunks have been emitted',
     'clang-14 -O1 lowering is the semantics checked; the ir2c translation is validated differentially (generated C vs g++ build of the real headers) on every run',
 ]
-OUTSIDE = ['floating-point conversions (%f %e %g), %ls / %lc, %n', 'radix-10 values with more than 3 digits other than the boundary constants (digit kernel: digits.r10.* cover up to 10^5 in the thorough tier)',
-           'widths and precisions above 70; symbolic widths above 12 (quick) / 24 (thorough) in opts.* — larger ones are concrete (e2e.*, opts.w70.*)',
-           'locale_options other than the default (thousands separators / grouping strings)', 'agents other than the test agent; sinks that fail',
-           'fmt() argument types other than int, unsigned long, char; more than three arguments', 'logger Limit other than 8; text appended after endlog']
+OUTSIDE = ['floating-point conversions (%f %e %g), %ls / %lc, %n', 'format strings outside the e2e.* family as far as the PARSER is concerned (the back ends are covered for all option sets)',
+           'radix-10 values with more than 3 digits other than the boundary constants (digit kernel alone: digits.r10.* up to 10^5 in the thorough tier)',
+           'widths and precisions above 70; solver-chosen widths/precisions above 12 (quick) / 24 (thorough) in opts.* - larger ones are concrete (e2e.*, fmt.*, thorough opts.w70.*)',
+           'locale_options other than the default (thousands separators / grouping strings)', 'agents other than the test agent; sinks that fail', '%s arguments longer than 5 bytes, NULL %s arguments (undefined in ISO C)',
+           'fmt() argument types other than int, unsigned long, char; more than three arguments; format strings outside the template family', 'logger Limit other than 8; text appended after endlog; more than three pieces']
